@@ -332,7 +332,7 @@ def run(ctx, spec):
     # combine: pairs of short histories
     rng = ctx.rng("combine")
     short = [h for L in range(0, 3) for h in itertools.product(options, repeat=L)]
-    for k in range(len(short) * 2):
+    for k in range(len(short) * (2 if ctx.tier == 'quick' else 16)):
         h1, h2 = rng.choice(short), rng.choice(short)
         merge, retention = rng.choice(policies)
         comb = rng.choice(sorted(COMBINATORS))
@@ -341,7 +341,7 @@ def run(ctx, spec):
             h2 = [(v, t or "y") for v, t in h2]
         check_combine(ctx, DP, h1, h2, merge, retention, comb)
     # combine of entries holding many tied tags (ALL) and with MAX policy
-    for k in range(200):
+    for k in range(200 if ctx.tier == 'quick' else 3000):
         n1, n2 = rng.randint(1, 6), rng.randint(1, 6)
         v1, v2 = rng.randint(0, 2), rng.randint(0, 2)
         h1 = [(v1, f"t{i}") for i in range(n1)] + [(v1 + rng.choice([1, 2]) * (1 if k % 2 else -1) * 0 + 3, "z")]
